@@ -3082,6 +3082,71 @@ def gen_C16(rng):
     return ctx.text()
 
 
+def gen_C16_order(rng):
+    """operations across forests of one domain whose variable orders differ must be
+    rejected (INVALID_OPERATION) at EVERY call -- also when the same operation on the same
+    forests succeeded before one of them was reordered -- and succeed again once the
+    orders agree; operands and earlier results keep their functions"""
+    ctx = Ctx(rng)
+    ctx.emit("init " + rand_ctopts(rng))
+    d = rand_domain(rng, "D", False, 120, 4)
+    while len(d.sizes) < 2:
+        d = rand_domain(rng, "D", False, 120, 4)
+    ctx.emit(d.decl())
+    ctx.doms.append(d)
+    k = len(d.sizes)
+    rg = rng.choice(["bool", "int"])
+    fs = []
+    for i in range(2):
+        f = Forest("F%d" % i, d, False, rg, "mt", rng.choice(["fr", "qr"]),
+                   rand_opts(rng) + " reorder=" + rng.choice(REORDERS) + " swap=" + rng.choice(["var", "level"]))
+        ctx.emit(f.decl())
+        ctx.forests.append(f)
+        fs.append(f)
+    a0 = gen_coll(ctx, fs[0], "a0", nmax=4)
+    b0 = gen_coll(ctx, fs[0], "b0", nmax=4)
+    a1 = gen_coll(ctx, fs[1], "a1", nmax=4)
+    op = rng.choice(SETOPS) if rg == "bool" else rng.choice(["plus", "max", "min"])
+
+    def tryop(res_forest):
+        n = ctx.fresh("x")
+        ctx.emit("apply %s %s %s a0 a1" % (n, res_forest.name, op))
+        ctx.edges[n] = res_forest
+        return n
+
+    def perm():
+        while True:
+            p = list(range(1, k + 1))
+            rng.shuffle(p)
+            if p != list(range(1, k + 1)):
+                return p
+
+    def observe():
+        for g in fs:
+            ctx.emit("order %s" % g.name)
+        for e in list(ctx.edges):
+            ctx.emit("show %s" % e)
+        for g in fs:
+            ctx.emit("audit %s" % g.name)
+
+    tryop(rng.choice(fs))                 # same orders: accepted (the operation now exists)
+    P = perm()
+    ctx.emit("reorder F0 %s" % " ".join(map(str, P)))
+    tryop(fs[1])                          # orders differ: rejected
+    tryop(fs[0])
+    observe()
+    ctx.emit("reorder F1 %s" % " ".join(map(str, P)))
+    tryop(rng.choice(fs))                 # orders agree again: accepted
+    if rng.random() < 0.6:
+        Q = perm()
+        ctx.emit("reorder %s %s" % (rng.choice(["F0", "F1"]), " ".join(map(str, Q))))
+        tryop(rng.choice(fs))             # rejected unless Q == P
+    observe()
+    n = ctx.fresh("ok")
+    ctx.emit("apply %s F0 %s a0 b0" % (n, op))
+    return ctx.text()
+
+
 def gen_C17(rng):
     """create and destroy domains, forests and edges in random orders, with
     operations spanning destroyed and surviving forests; repeated init/cleanup"""
@@ -3162,6 +3227,13 @@ def gen_C17(rng):
                     if live:
                         o = rng.choice(live)
                         ctx.emit("apply %s %s union %s %s" % (ctx.fresh("x"), edges[o], g, o))
+                    if live and rng.random() < 0.5:
+                        # unary operations with the detached edge as result operand, after the
+                        # same operator was used with a non-edge result on a surviving forest
+                        o = rng.choice(live)
+                        ctx.emit("card %s" % o)
+                        ctx.emit("unaryinto %s %s %s" % (g, rng.choice(["card", "card", "copy", "compl"]), o))
+                        ctx.emit("attached %s" % g)
                     if forests and rng.random() < 0.6:
                         # the same edge object is attached to a surviving forest: it must be that
                         # forest's transparent edge and hold no reference there
